@@ -227,3 +227,50 @@ Qed.
 Corollary move_overspend_unchanged E from to amt fr tr c c' :
   move E from to amt fr tr c = (c', Err E_OVERSPEND) -> c' = c.
 Proof. intros H. destruct (move_error_exits _ _ _ _ _ _ _ _ _ H) as [->|[Hne _]]; [reflexivity | contradiction]. Qed.
+
+(* ------------------------------------------------------------------ application calls *)
+(* an inner transaction issued by a program: fee to the sink, then the body *)
+Theorem inner_txn_conserves E U app fee b c c' u :
+  env_ok E -> NoDup U -> inner_ok E U app (fee, b) -> wf_cow (e_lvl E) c ->
+  perform E app fee b c = (c', Ok u) ->
+  tot_at (e_P E) (e_lvl E) U c' = tot_at (e_P E) (e_lvl E) U c /\ wf_cow (e_lvl E) c'.
+Proof.
+  intros [Hu Hl] HU Hok Hw H.
+  destruct (perform_spec E Hu Hl U HU app fee b c c' u _ Hok (conj Hw eq_refl) H) as [W T].
+  split; [exact T | exact W].
+Qed.
+
+(* StatefulEval of ANY program (any finite script of ledger operations, approving, rejecting
+   or failing anywhere): the total is the same afterwards *)
+Theorem program_conserves E U app clear script acc c c' r :
+  env_ok E -> NoDup U -> Forall (op_ok E U app) script -> wf_cow (e_lvl E) c ->
+  stateful_eval E app clear script acc c = (c', r) ->
+  tot_at (e_P E) (e_lvl E) U c' = tot_at (e_P E) (e_lvl E) U c /\ wf_cow (e_lvl E) c'.
+Proof.
+  intros [Hu Hl] HU Hok Hw H.
+  destruct (stateful_eval_spec E Hu Hl U HU app clear script acc c c' r _ Hok (conj Hw eq_refl) H) as [W T].
+  split; [exact T | exact W].
+Qed.
+
+(* ApplicationCall: create / opt-in / close-out / clear state / delete around the program *)
+Theorem app_call_conserves E U sender call ctr c c' u :
+  env_ok E -> NoDup U -> call_ok E U call -> wf_cow (e_lvl E) c ->
+  application_call E sender call ctr c = (c', Ok u) ->
+  tot_at (e_P E) (e_lvl E) U c' = tot_at (e_P E) (e_lvl E) U c /\ wf_cow (e_lvl E) c'.
+Proof.
+  intros [Hu Hl] HU Hok Hw H.
+  destruct (application_call_spec E Hu Hl U HU sender call ctr c c' u _ Hok (conj Hw eq_refl) H) as [W T].
+  split; [exact T | exact W].
+Qed.
+
+(* a program that does not approve -- it rejects, or any instruction fails, at any position of
+   the script, also after inner transactions have been performed -- leaves the transaction's
+   cow EXACTLY as it was; an approving one touches nothing below that cow *)
+Theorem program_atomic E app clear script acc c c' r :
+  stateful_eval E app clear script acc c = (c', r) ->
+  (r <> Ok true -> c' = c) /\ same_below c c'.
+Proof.
+  intros H. split.
+  - intros Hr. eapply stateful_eval_not_approved; eauto.
+  - pose proof (stateful_eval_same_below E app clear script acc c) as K. now rewrite H in K.
+Qed.
